@@ -691,12 +691,11 @@ func encRules(c *Ctx) {
 	var observations []string
 	for _, fi := range funcs {
 		info := c.info(fi)
-		file := c.P.Fset.Position(fi.Decl.Pos()).Filename
 		prop := "C01"
 		switch {
 		case fi.Obj.Name() == "removeUnusedSinglePass" || fi.Obj.Name() == "removeUnused":
 			prop = "C06"
-		case strings.HasSuffix(file, "/analyzer.go"):
+		case c.onSpec(fi):
 			continue // the analyzer's keys are decided by IDX
 		}
 		report := func(sinkKind string, m ast.Expr, key ast.Expr, pos token.Pos) {
